@@ -13,10 +13,13 @@ package staticfiles
 //@   ensures result1 == nil ==> result0 == statOf(self)
 //@ func (FileServer).IsHidden
 //@   pure
+//@ extern invoke:(io/fs.FileInfo).IsDir
+//@   pure
 
 //@ func (FileServer).serveFile
 //@   requires r != nil && r.URL != nil
 //@   at call net/http.ServeContent assert [sink_not_hidden] !fs.IsHidden(statOf(f))
+//@   at call net/http.ServeContent assert [sink_not_dir] !statOf(f).IsDir()
 //@   loop 3 invariant d == statOf(f)
-//@   loop 4 invariant d == statOf(f) && !fs.IsHidden(d)
-//@   loop 5 invariant d == statOf(f) && !fs.IsHidden(d)
+//@   loop 4 invariant d == statOf(f) && !fs.IsHidden(d) && !d.IsDir()
+//@   loop 5 invariant d == statOf(f) && !fs.IsHidden(d) && !d.IsDir()
